@@ -15,6 +15,8 @@ export PYTHONHASHSEED=0
 export PYTHONDONTWRITEBYTECODE=1
 export AVOCADO_I2N_VERIF=1
 export PYTHONWARNINGS=ignore
+# development aid only: run the checks against a scratch copy of the repository instead of /repo
+if [ -n "${VERIF_REPO:-}" ]; then export PYTHONPATH="$VERIF_REPO${PYTHONPATH:+:$PYTHONPATH}"; fi
 
 build_venv() {
     if [ -x "$PY" ] && "$PY" -c "import z3, crosshair, avocado_i2n" >/dev/null 2>&1; then
